@@ -423,6 +423,15 @@ func TabEscape(p *load.Program) *report.RuleResult {
 				r.Bad(wname, p.Pos(wfn.Pos()), what, "not of the form backslash + one character")
 				continue
 			}
+			// against the specification alone (an independent decoder, C04)
+			whatSpec := sprintf("writer-vs-spec: byte 0x%02X spelled %q", b, s)
+			if cp, ok := specEscapes[int64(s[1])]; ok && cp == b {
+				r.OK(wname, p.Pos(wfn.Pos()), whatSpec, sprintf("Ion 1.0 maps it to U+%04X", cp))
+			} else if ok {
+				r.Bad(wname, p.Pos(wfn.Pos()), whatSpec, sprintf("Ion 1.0 maps %q to U+%04X", s, cp))
+			} else {
+				r.Bad(wname, p.Pos(wfn.Pos()), whatSpec, "not an Ion 1.0 escape")
+			}
 			if cp, ok := plain[int64(s[1])]; ok && cp == b {
 				r.OK(wname, p.Pos(wfn.Pos()), what, "reader maps it back to the same byte")
 			} else if ok {
